@@ -2,7 +2,7 @@
 import os, sys, json, hashlib, subprocess, time, fcntl, re
 from tlc import WORK, VERIF, ToolError, spec_digest
 
-REPO = "/repo"
+REPO = os.environ.get("VERIF_REPO", "/repo")   # the tree under test (seeded-change experiments point this at a scratch worktree)
 
 
 def log(*a):
